@@ -69,7 +69,8 @@ PROF_FIELDS = ["dz", "dzsum", "zBot", "z_top", "zMid", "th_s", "th_fc", "th_wp",
 CROP_FIELDS = ["Name", "CCx", "CC0", "Zmin", "Zmax", "HI0", "dHI0", "Tbase", "Tupp", "GDDmethod", "WP", "WPy",
                "YldWC", "fCO2", "CalendarType", "Maturity", "MaturityCD", "HIstartCD", "HIstart",
                "CropType", "Emergence", "Senescence", "CGC", "CDC", "planting_date", "harvest_date",
-               "Aer", "LagAer", "ETadj", "PlantMethod", "SxTop", "SxBot", "Kcb", "dHI_pre", "a_HI", "b_HI"]
+               "Aer", "LagAer", "ETadj", "PlantMethod", "SxTop", "SxBot", "Kcb", "dHI_pre", "a_HI", "b_HI",
+               "Canopy10Pct", "MaxCanopy"]
 
 
 def _plain(v):
@@ -231,7 +232,9 @@ def collect(scenarios, encoders=None, with_lines=True):
 
     def day_end(model, day):
         ic = model._init_cond
-        day["post"] = dict(dap=int(ic.dap), season=int(model._clock_struct.season_counter),
+        day["post"] = dict(dap=int(ic.dap), delayed_cds=float(ic.delayed_cds), delayed_gdds=float(ic.delayed_gdds),
+                           gdd_cum=float(ic.gdd_cum), germination=bool(ic.germination),
+                           season=int(model._clock_struct.season_counter),
                            t_next=int(model._clock_struct.time_step_counter),
                            finished=bool(model._clock_struct.model_is_finished))
         col.cur = None
@@ -263,7 +266,7 @@ def collect(scenarios, encoders=None, with_lines=True):
 
 
 def n_scenarios(tier):
-    return 24 if tier == "quick" else 160
+    return 28 if tier == "quick" else 160
 
 
 def get_traces(seed, tier, verbose=True):
